@@ -522,7 +522,7 @@ def run_prog(g, with_int3=False, with_tf=False):
     nested = ""
     if r.random() < 0.3:
         nested = "macro m_in(a) -> print reg inc a <-\nmacro m_out(a) -> m_in(a) print flags m_in(a) dec a <-\n"
-        seq.insert(r.randrange(1, len(seq) + 1), r.choice(["m_out(bx)", "m_in(dx)", "m_out(ax)\nm_in(cx)"]))
+        seq.insert(r.randrange(1, len(seq) + 1), r.choice(["m_out(bx)", "m_in(dx)", "m_out(ax)\nm_in(bx)"]))
     if with_tf:
         seq.insert(1, "mov ax, 0x0100\npush ax\npopf")
     seq.append(labels[nblocks] + ":")
